@@ -340,10 +340,12 @@ impl CompressorClient {
             .map_err(MonorailError::from)
     }
     pub(crate) async fn shutdown(&self) -> Result<(), MonorailError> {
-        self.req_tx
-            .send(CompressRequest::Shutdown)
-            .await
-            .map_err(MonorailError::from)
+        // Every client of a compressor thread sends it a shutdown, but the
+        // thread exits on the first one and closes the channel. A closed
+        // channel therefore means the thread has already shut down, which is
+        // the outcome requested, not an error.
+        let _ = self.req_tx.send(CompressRequest::Shutdown).await;
+        Ok(())
     }
 }
 
